@@ -23,6 +23,13 @@ type LEmbClash struct {
 	LIn
 	X int
 }
+type LZInner struct{ X int }
+type LZMid struct{ LZInner }
+type LZOther struct{ X int }
+type LZTop struct {
+	LZMid
+	LZOther
+}
 type LHold struct {
 	PIn *LIn
 	F   func(int) int
@@ -184,6 +191,13 @@ func latSpecials() []latSpecial {
 	}
 	add("outer field shadows promoted field: read", clash, "c.X", reads("d:2"))
 	add("outer field shadows promoted field: write", clash, "c.X = 7; c.X", wrote("d:7", "7 1"))
+	depth := func(vm *otto.Otto) func() string {
+		z := &LZTop{LZMid{LZInner{1}}, LZOther{2}}
+		vm.Set("c", z)
+		return func() string { return fmt.Sprint(z.LZOther.X, z.LZMid.LZInner.X) }
+	}
+	add("promoted fields: the shallower one wins (read)", depth, "c.X", reads("d:2"))
+	add("promoted fields: the shallower one wins (write)", depth, "c.X = 7; c.X", wrote("d:7", "7 1"))
 	// holder: pointer field aliases, func fields, nested slices
 	hold := func(vm *otto.Otto) func() string {
 		h := &LHold{PIn: &LIn{1}, L: []int{1, 2}, M: map[string][]int{"k": {1}}, Sl: []LIn{{1}}, Mv: map[string]LIn{"a": {1}}}
